@@ -23,6 +23,9 @@ func checkC09(c *Ctx) {
 	c09Sampler(c, prog)
 	c09Drbg(c, prog)
 	c09ErrCheck(c, prog)
+	// "with the RFC 6979 selector the signature equals ... for every key and digest": Sign hands every admissible digest
+	// and the caller's reader to sign unchanged, whatever the reader is (rule C08-3)
+	c08Options(c, prog)
 	c.R.Explanation = "Nonce generation is decided structurally: (1) in secec.sign the caller's reader flows only into mitigateDebianAndSony and the sampler reads only from that function's result (def-use over SSA); GenerateKey samples from crypto/rand.Reader; (2) mitigateDebianAndSony, abstractly interpreted with an unknown reader: the RFC 6979 sentinel selects the deterministic generator built from (private scalar, e); otherwise exactly 32 bytes are obtained with io.ReadFull (nil is replaced by crypto/rand.Reader - no nil read is reachable), a read error returns (nil, err), and the returned XOF is TupleHashXOF128 keyed by a constant containing the context string having absorbed, in order, Bytes(private scalar), the 32 entropy bytes, Bytes(e) - each exactly once; (3) sampleRandomScalar (all 8 attempts unrolled): every accepting return hands out fn(E) for a 32-byte block E obtained by io.ReadFull whose read error was nil and which was tested canonical (not reduced) and non-zero on that path; every other return is an error with a nil scalar; after the last attempt an error is returned; (4) the RFC 6979 generator: the initial state equals steps b-g of RFC 6979 3.2 as HMAC-SHA-256 terms over int2octets(x) || bits2octets(h1); a first read returns V' = HMAC_K(V) and a read after a rejected candidate performs K = HMAC_K(V || 00), V = HMAC_K(V) first (step h.3), for 32-byte requests only; (6) no error result is discarded in secec, secec/bitcoin, secec/h2c except the enumerated never-failing hash writes and four justified sites."
 	c.R.Assumptions = []string{"TupleHashXOF128 / HMAC-SHA-256 outputs differ when their inputs differ and are unbiased (cryptographic assumption; not decided)", "io.ReadFull returns an error unless the buffer was filled (standard library contract)", "C02 (Scalar.SetBytes flag, Bytes)"}
 }
